@@ -18,7 +18,7 @@ func init() {
 			"(R33.1) a job is accepted (nil) only after one semaphore unit was acquired under the accepting context, and every accepted job starts exactly one goroutine that releases that unit by defer, calls the job function once with the job, and cancels the worker with the job's own error; " +
 			"(R33.2) waiting acquires the whole semaphore with a context the worker cannot cancel itself (so it cannot return while accepted jobs run), Wait does it after the accept side was closed and answers the cancel cause; " +
 			"(R33.3) the run helpers hand in every index once (per-iteration loop variable, go >= 1.22), call Done before Wait and return Wait's answer; " +
-			"(R33.4) BatchWork calls the batch preparation with the batch's last index before that batch's jobs, runs indexes i..end-1 of each batch, advances by the limit, stops exactly when end reached size and reports success only if every batch succeeded.",
+			"(R33.4) BatchWork calls the batch preparation with the batch's last index before that batch's jobs, runs indexes i..end-1 of each batch, advances by the limit, stops exactly when end reached size and reports success only if every batch succeeded.; (R33.e) whatever error a job returns is handed to the worker's cancel (no error is filtered out before it can become the reported first error)",
 		NotDecided: "exactly-once and first-error-wins under all schedules (context.WithCancelCause's first-cause semantics and x/sync/semaphore are trusted); jobs that ignore their context.",
 		Run:        runC33,
 	})
@@ -39,6 +39,25 @@ func goDirective(root string) (int, int, bool) {
 }
 
 func runC33(c *Ctx) {
+	// R33.e: a job's error always reaches the worker's cancel (first error is what Wait reports)
+	c.Rule("R33.e", "MustPass")
+	if parent := c.Need("util.NewBaseJobWorker"); parent != nil {
+		n := 0
+		for _, f := range WithClosures(parent) {
+			for _, call := range c.CallsD(f, "call(var:complit.NewJobFunc)(*)") {
+				n++
+				var ends []ssa.Instruction
+				for _, r := range Returns(f) {
+					if r.Block().Comment != "recover" {
+						ends = append(ends, r)
+					}
+				}
+				c.MPFrom(f, call, "the job goroutine ends only after a job error was handed to the worker's cancel", ends, 1,
+					GOk("call(var:complit.NewJobFunc)(*)"), GCalled("call(var:complit.ctxCancel)(call(var:complit.NewJobFunc)(*))"))
+			}
+		}
+		c.Floor(parent, "job invocations", n, 1)
+	}
 	parent := c.Need("util.NewBaseJobWorker")
 	if parent == nil {
 		return
